@@ -632,6 +632,14 @@ def run(ctx):
     panics.explicit_panics(ctx, "C01.R14", [core, cli, wasm], G)
     panics.pratt_nonempty(ctx, "C01.R15", [core, cli, wasm], G)
     panics.constant_indexes(ctx, "C01.R16", [core, cli, wasm], skip_fns=(BCALL,))
+    # ---------------- R17 deeply nested JSON is refused, not recursed into
+    ctx.rule("C01.R17", "JSON documents are parsed with serde_json's recursion limit in force (128 levels: a deeper document is a reported error): the `unbounded_depth` feature is off and nothing calls disable_recursion_limit - the conversions that walk the parsed value recurse once per level", floor=1)
+    from rules import c06 as c06_
+    feats_ = c06_.serde_json_features(ctx.metadata)
+    for ver_, fs_ in sorted((feats_ or {}).items()):
+        ctx.inst("C01.R17", "serde_json@unbounded_depth", "unbounded_depth" not in fs_, "resolved features of serde_json %s: %s" % (ver_, sorted(fs_)), "blots/Cargo.toml")
+    off_ = sorted((n_, fn_.loc(b_)) for n_ in cg.fns for fn_ in [M.Fn(cg.fns[n_], n_)] for b_ in fn_.call_blocks() if "disable_recursion_limit" in (fn_.callee(b_) or ""))
+    ctx.inst("C01.R17", "disable_recursion_limit#no-callers", not off_, "calls of disable_recursion_limit: %s" % (off_ or "none"), None)
 
     # ---------------- R10 table lookups that `expect`
     ctx.rule("C01.R10", "operator_info's expect is discharged: every BinaryOp variant has exactly one row in PRECEDENCE_TABLE", floor=26)
